@@ -328,7 +328,7 @@ def run_check(prop, obligations, tier, level='model_checking', assumptions=None,
         part = ob.partitions[0] if ob.twin_partition == 'first' else ob.twin_partition
         kf_active = active_by_ob.get(ob.name, set())
         res = run_partition(ob, part, twin=True, kf_active=kf_active,
-                            timeout=min(ob.timeout, 60))
+                            timeout=min(ob.timeout, 150))
         if res['status'] == 'counterexample' and res['cex']:
             res['sample'] = res['cex']
         return ob, res
